@@ -36,6 +36,9 @@ type urlDecl struct {
 // a declared raw text equals the String() of a structured URL iff the components are equal, the
 // scheme was written in lower case and String() emitted the "//".
 func (m *Machine) strEq(a, b *Term) *Term {
+	if a.IsConst() && a.S == "" && m.strEmptiness(b) == 1 || b.IsConst() && b.S == "" && m.strEmptiness(a) == 1 {
+		return tFalse
+	}
 	if a.IsConst() || b.IsConst() || m.urls == nil {
 		return mkEq(a, b)
 	}
@@ -53,7 +56,7 @@ func (m *Machine) strEq(a, b *Term) *Term {
 		if db.synth {
 			s = db
 		}
-		r = mkAnd(r, mkOr(nonEmptyT(s.host), nonEmptyT(s.path)))
+		r = mkAnd(r, mkOr(m.nonEmptyT(s.host), m.nonEmptyT(s.path)))
 	}
 	return r
 }
@@ -216,8 +219,9 @@ func (i *interpreter) urlFields(p *value) (f [5]*Term) {
 	return
 }
 
-// emptiness of a string term when it is syntactically evident: +1 non-empty, -1 empty, 0 unknown.
-func strEmptiness(t *Term) int {
+// emptiness of a string term when it is evident: +1 non-empty, -1 empty, 0 unknown.
+// Evident = syntactically, or an input variable v for which (not (= v "")) is a conjunct of the path condition.
+func (m *Machine) strEmptiness(t *Term) int {
 	if t.IsConst() {
 		if t.S == "" {
 			return -1
@@ -226,7 +230,27 @@ func strEmptiness(t *Term) int {
 	}
 	if t.Op == "str.++" {
 		for _, p := range t.Args {
-			if strEmptiness(p) == 1 {
+			if m.strEmptiness(p) == 1 {
+				return 1
+			}
+		}
+	}
+	if t.Op == "var" && m != nil {
+		want := mkNot(mkEq(t, mkStr(""))).String()
+		var scan func(c *Term) bool
+		scan = func(c *Term) bool {
+			if c.Op == "and" {
+				for _, a := range c.Args {
+					if scan(a) {
+						return true
+					}
+				}
+				return false
+			}
+			return c.Op == "not" && c.String() == want
+		}
+		for _, c := range m.pc {
+			if scan(c) {
 				return 1
 			}
 		}
@@ -234,8 +258,8 @@ func strEmptiness(t *Term) int {
 	return 0
 }
 
-func nonEmptyT(t *Term) *Term {
-	switch strEmptiness(t) {
+func (m *Machine) nonEmptyT(t *Term) *Term {
+	switch m.strEmptiness(t) {
 	case 1:
 		return tTrue
 	case -1:
@@ -244,8 +268,8 @@ func nonEmptyT(t *Term) *Term {
 	return mkNot(mkEq(t, mkStr("")))
 }
 
-func optPart(prefix string, t *Term) *Term {
-	switch strEmptiness(t) {
+func (m *Machine) optPart(prefix string, t *Term) *Term {
+	switch m.strEmptiness(t) {
 	case 1:
 		return mkConcat(mkStr(prefix), t)
 	case -1:
@@ -257,10 +281,10 @@ func optPart(prefix string, t *Term) *Term {
 // structuredString is (*URL).String() for a URL whose components are over the safe alphabets
 // (no user info, no opaque part, path empty or starting with "/"):
 //   [scheme ":"] ["//" if (scheme≠"" ∨ host≠"") ∧ (host≠"" ∨ path≠"")] host path ["?" rawquery] ["#" fragment]
-func structuredString(f [5]*Term) *Term {
-	slashes := mkIte(mkAnd(mkOr(nonEmptyT(f[0]), nonEmptyT(f[1])), mkOr(nonEmptyT(f[1]), nonEmptyT(f[2]))), mkStr("//"), mkStr(""))
+func (m *Machine) structuredString(f [5]*Term) *Term {
+	slashes := mkIte(mkAnd(mkOr(m.nonEmptyT(f[0]), m.nonEmptyT(f[1])), mkOr(m.nonEmptyT(f[1]), m.nonEmptyT(f[2]))), mkStr("//"), mkStr(""))
 	var sch *Term
-	switch strEmptiness(f[0]) {
+	switch m.strEmptiness(f[0]) {
 	case 1:
 		sch = mkConcat(f[0], mkStr(":"))
 	case -1:
@@ -268,7 +292,7 @@ func structuredString(f [5]*Term) *Term {
 	default:
 		sch = mkIte(mkEq(f[0], mkStr("")), mkStr(""), mkConcat(f[0], mkStr(":")))
 	}
-	return mkConcat(sch, slashes, f[1], f[2], optPart("?", f[3]), optPart("#", f[4]))
+	return mkConcat(sch, slashes, f[1], f[2], m.optPart("?", f[3]), m.optPart("#", f[4]))
 }
 
 func (i *interpreter) urlString(fr *frame, p *value) value {
@@ -292,12 +316,12 @@ func (i *interpreter) urlString(fr *frame, p *value) value {
 		}
 	} else if allSafe(m, f[:]) {
 		structured = true
-		if e := strEmptiness(f[2]); !(e == -1 || f[2].IsConst() && strings.HasPrefix(f[2].S, "/") || f[2].Op == "str.++" && f[2].Args[0].IsConst() && strings.HasPrefix(f[2].Args[0].S, "/")) {
+		if e := m.strEmptiness(f[2]); !(e == -1 || f[2].IsConst() && strings.HasPrefix(f[2].S, "/") || f[2].Op == "str.++" && f[2].Args[0].IsConst() && strings.HasPrefix(f[2].Args[0].S, "/")) {
 			structured = false
 		}
 	}
 	if structured {
-		s := structuredString(f)
+		s := m.structuredString(f)
 		if !s.IsConst() {
 			hn := m.hostnameOf(f[1], nil)
 			if hn == nil && f[1].IsConst() {
@@ -308,7 +332,11 @@ func (i *interpreter) urlString(fr *frame, p *value) value {
 				if m.urls == nil {
 					m.urls = map[string]*urlDecl{}
 				}
-				m.urls[s.String()] = &urlDecl{scheme: f[0], host: f[1], hostname: hn, path: f[2], rawquery: f[3], fragment: f[4], synth: true}
+				nd := &urlDecl{scheme: f[0], host: f[1], hostname: hn, path: f[2], rawquery: f[3], fragment: f[4], synth: true}
+				if org != nil && org.decl != nil && org.decl.hostLit != nil && sameTerm(org.decl.host, f[1]) {
+					nd.hostLit, nd.portPart = org.decl.hostLit, org.decl.portPart
+				}
+				m.urls[s.String()] = nd
 			}
 		}
 		return strVal(s)
@@ -376,6 +404,9 @@ func symIsLoopbackIP(fr *frame, s *Term) value {
 	oct := `(re.union (re.range "0" "9") (re.++ (re.range "1" "9") (re.range "0" "9")) (re.++ (str.to_re "1") (re.range "0" "9") (re.range "0" "9")) (re.++ (str.to_re "2") (re.range "0" "4") (re.range "0" "9")) (re.++ (str.to_re "25") (re.range "0" "5")))`
 	v4loop := mkInRe(s, `(re.++ (str.to_re "127.") `+oct+` (str.to_re ".") `+oct+` (str.to_re ".") `+oct+`)`)
 	if fr.i.m.sepFree(s, ":") {
+		if fr.i.m.sepFree(s, "1") {
+			return false // no IPv6 text without ':', no 127.x.y.z without '1'
+		}
 		return boolVal(v4loop)
 	}
 	v6 := mkEq(s, mkStr("::1"))
@@ -390,8 +421,8 @@ func (i *interpreter) symIsRequestURL(fr *frame, s *Term) value {
 	if d, ok := m.urls[s.String()]; ok && d.synth {
 		// String() of a structured URL: ParseRequestURI does not split off the fragment, so the only
 		// failure is a "#" ending up in the authority ("scheme://host#frag").
-		bad := mkAnd(nonEmptyT(d.host), mkNot(nonEmptyT(d.path)), mkNot(nonEmptyT(d.rawquery)), nonEmptyT(d.fragment))
-		return boolVal(mkAnd(nonEmptyT(d.scheme), mkNot(bad)))
+		bad := mkAnd(m.nonEmptyT(d.host), mkNot(m.nonEmptyT(d.path)), mkNot(m.nonEmptyT(d.rawquery)), m.nonEmptyT(d.fragment))
+		return boolVal(mkAnd(m.nonEmptyT(d.scheme), mkNot(bad)))
 	}
 	r := mkUF("u_is_request_url", SBool, s)
 	if sc := m.ghost["url:absstr:"+s.String()]; len(sc) == 1 {
@@ -460,7 +491,7 @@ func (i *interpreter) symParseQuery(fr *frame, q *Term) value {
 		panic(unmodelled{"URL.Query on an unstructured symbolic raw query"})
 	}
 	for _, pair := range pairs {
-		if strEmptiness(pair) == -1 {
+		if m.strEmptiness(pair) == -1 {
 			continue
 		}
 		kv, ok := m.structuralSplitLoose(pair, "=")
